@@ -959,6 +959,53 @@ func (g *G) genSaturatedAgeCase(p *Profile, id string) *Case {
 	return c
 }
 
+// genDelimitedVaryCase (C04): one request's selecting value spells out another request's (name, value) pairs in some
+// delimiter's clothing ("ios;X-Other=pro" against X-Custom: ios + X-Other: pro), the Vary field set changes between
+// the two, and one of the variants is reloaded in place (no-cache, answered 200) before the other is requested again.
+func (g *G) genDelimitedVaryCase(p *Profile, id string) *Case {
+	c := &Case{ID: id, Stream: "M", SWRTimeout: 0}
+	res := g.intn(2)
+	v, w := g.pick("ios", "1", "a"), g.pick("pro", "2", "b")
+	glue := g.pick(";X-Other=", "&X-Other=", ", X-Other: ", "\nX-Other=", " X-Other ", ";x-other=")
+	tail := ""
+	if strings.HasPrefix(glue, ";") && g.chance(0.5) {
+		tail = ";"
+	}
+	a := []Hdr{{"X-Custom", []string{v}}, {"X-Other", []string{w}}}
+	b := []Hdr{{"X-Custom", []string{v + glue + w + tail}}}
+	if strings.Contains(glue, "\n") {
+		b = []Hdr{{"X-Custom", []string{v + ";X-Other=" + w}}} // no line breaks in field values
+	}
+	get := func(h []Hdr, cc string) Req {
+		hs := append([]Hdr(nil), h...)
+		if cc != "" {
+			hs = append(hs, Hdr{"Cache-Control", []string{cc}})
+		}
+		return Req{Gap: g.pickD(time.Second, 2*time.Second), Method: "GET", URL: g.urlFor(res, false), Hdrs: hs}
+	}
+	first, second := a, b
+	if g.chance(0.5) {
+		first, second = b, a
+	}
+	varyFirst, varySecond := "X-Custom, X-Other", "X-Custom"
+	if g.chance(0.3) {
+		varyFirst, varySecond = varySecond, varyFirst
+	}
+	c.Reqs = []Req{get(first, ""), get(second, ""), get(first, "no-cache"), get(second, ""), get(first, ""), get(second, "")}
+	// which origin call answers with which Vary field set: the set changes once, at the second, third or fourth call
+	change := 1 + g.intn(3)
+	back := g.chance(0.3)
+	for i := 0; i < 10; i++ {
+		vy := varyFirst
+		if i >= change && !(back && i > change) {
+			vy = varySecond
+		}
+		r := tRep(i, 200, "max-age=3600", Hdr{"Vary", []string{vy}}, Hdr{"ETag", []string{fmt.Sprintf(`"v%d"`, i)}})
+		c.Script = append(c.Script, ScriptEntry{Plain: r, Cond: r})
+	}
+	return c
+}
+
 // genFor: the generator of case number i of a profile (targeted shapes are mixed into some profiles)
 func (g *G) genFor(p *Profile, id string, i int) *Case {
 	g.noVaryCC = p.Name == "spell"
@@ -971,6 +1018,8 @@ func (g *G) genFor(p *Profile, id string, i int) *Case {
 		return g.genTwoMatchCase(p, id)
 	case p.Name == "vary" && i%20 == 7:
 		return g.genGluedVaryCase(p, id)
+	case p.Name == "vary" && i%20 == 13:
+		return g.genDelimitedVaryCase(p, id)
 	case (p.Name == "fresh" || p.Name == "age") && i%25 == 9:
 		return g.genSaturatedAgeCase(p, id)
 	}
